@@ -1,12 +1,12 @@
 CONSTANTS
-  Trees <- Trees2
+  Trees <- TreesQ
   Chunks = 2
   LockChunks = 2
   TaskArgs <- TaskArgsSmall
   OpsIds <- Ops1
-  MaxCrash = 2
+  MaxCrash = 0
   MaxCreate = 2
-  MaxHist = 1
+  MaxHist = 2
   MaxHistUnlisted = 1
   RECORD_FIRST = FALSE
   OVERWRITE = FALSE
